@@ -312,6 +312,28 @@ class Built:
             for i in range(t[2]):
                 e = e + 1.0
             return e
+        if k == "chain":
+            # a loop-built left spine of t[2] operators over the base t[1]; t[3] = [[position, piece, op], ...] puts a piece
+            # as the RIGHT operand of `op` at that depth (position 0 = next to the deepest leaf); elsewhere `+ 1.0`
+            e = self.term(t[1])
+            ins = {i: (piece, op) for i, piece, op in t[3]}
+            for i in range(t[2]):
+                if i in ins:
+                    piece, op = ins[i]
+                    r = self.term(piece)
+                    e = e + r if op == "+" else e - r if op == "-" else e * r if op == "*" else e / r if op == "/" else e ** r
+                else:
+                    e = e + 1.0
+            return e
+        if k == "rpow":
+            return t[1] ** self.term(t[2])
+        if k == "pow":
+            return self.term(t[1]) ** self.term(t[2])
+        if k == "rdivc":
+            return t[1] / self.term(t[2])
+        if k == "fn":
+            from optyx.core import functions as F
+            return getattr(F, t[1])(self.term(t[2]))
         raise ValueError(k)
 
 
@@ -393,6 +415,54 @@ def observe(built):
         again = [v.name for v in built.problem.variables]
         nv = built.problem.n_variables
     return {"names": names, "bounds": [[None if b is None else float(b) for b in p] for p in bounds], "again": again, "n": nv}
+
+
+def collector_checks(b, spec, rep):
+    """get_all_variables / Constraint.get_variables on every expression, and Problem.variables of a rebuilt problem with
+    the recursion threshold of the variable walker lowered to 0 from outside (module attribute): same answer"""
+    import optyx.core.expressions as E
+
+    out = []
+    exprs = ([("objective", b.objective)] if b.objective is not None else []) + [(f"constraint {i}", c.expr) for i, c in enumerate(b.con_objs[:6])]
+    for label, e in exprs:
+        wantset = sorted({v.name for v in brute_vars(e, [])})
+        for thr in (None, 0):
+            old = E._RECURSION_THRESHOLD
+            try:
+                if thr is not None:
+                    E._RECURSION_THRESHOLD = thr
+                got = sorted(v.name for v in E.get_all_variables(e))
+            except RecursionError:
+                rep.skipped["get_all_variables-recursion (C15)"] = rep.skipped.get("get_all_variables-recursion (C15)", 0) + 1
+                continue
+            finally:
+                E._RECURSION_THRESHOLD = old
+            if got != wantset:
+                out.append({"what": "get_all_variables misses / invents variables", "where": label, "threshold": thr,
+                            "got": got[:40], "want": wantset[:40]})
+                break
+    for i, c in enumerate(b.con_objs[:6]):
+        try:
+            got = sorted(v.name for v in c.get_variables())
+        except RecursionError:
+            continue
+        wantset = sorted({v.name for v in brute_vars(c.expr, [])})
+        if got != wantset:
+            out.append({"what": "Constraint.get_variables misses / invents variables", "where": f"constraint {i}", "got": got[:40], "want": wantset[:40]})
+    if spec["kind"] != "deeppos":
+        old = E._RECURSION_THRESHOLD
+        try:
+            E._RECURSION_THRESHOLD = 0
+            b2 = Built(spec, 0)
+            want2, _ = expected_names(b2)
+            got2 = observe(b2)["names"]
+        finally:
+            E._RECURSION_THRESHOLD = old
+        if got2 != want2:
+            out.append({"what": "Problem.variables differs when the explicit-stack variable walker is used (threshold lowered to 0)",
+                        "threshold": 0, "got": got2[:40], "want": want2[:40]})
+    rep.histogram["collector-checks"] = rep.histogram.get("collector-checks", 0) + 1
+    return out[:2]
 
 
 def history_check(b, want):
@@ -826,6 +896,103 @@ def gen_matview_spec(rng):
     return {"kind": "matview", "decls": decls, "objective": obj, "constraints": cons, "maximize": rng.random() < 0.3}
 
 
+# ---- depth x operand position: loop-built chains whose left spine is about as deep as the recursion threshold (and far
+# beyond), in which one variable occurs ONLY at one specific place: exponent of **, right operand of / - *, under a
+# unary function, inside a vector / matrix node, a right child at depth, the deepest leaf.  Every one must be listed.
+
+POSITION_KINDS = ["pow-exp-const-base", "pow-exp", "spine-pow", "div-right", "spine-div", "sub-right", "spine-mul", "rdiv", "fn-sin", "fn-abs",
+                  "fn-exp", "fn-neg", "dot", "l2", "l1", "qf", "lc-expr", "esum", "vsum", "msum", "frob", "mvp", "right-leaf", "deepest-leaf",
+                  "nested-sub"]
+
+
+def position_piece(kind, lone, other, vec, mat):
+    """(base term, piece term, spine operator): `lone` (a scalar / vector / matrix name) occurs only inside the piece"""
+    L = ["scalar", lone]
+    O = ["scalar", other]
+    V = ["vec", vec]
+    Mx = ["mat", mat]
+    base = O
+    if kind == "pow-exp-const-base":
+        return base, ["rpow", 2.0, L], "+"
+    if kind == "pow-exp":
+        return base, ["pow", O, L], "+"
+    if kind == "spine-pow":
+        return base, L, "**"
+    if kind == "div-right":
+        return base, ["rdivc", 1.0, L], "+"
+    if kind == "spine-div":
+        return base, L, "/"
+    if kind == "sub-right":
+        return base, L, "-"
+    if kind == "spine-mul":
+        return base, L, "*"
+    if kind == "rdiv":
+        return base, ["div", O, 2.0], "/"          # `other` only: the lone variable is the deepest leaf here
+    if kind.startswith("fn-"):
+        f = kind[3:]
+        return base, (["neg", L] if f == "neg" else ["fn", {"abs": "abs_"}.get(f, f), L]), "+"
+    if kind == "dot":
+        return base, ["dot", V, ["slice", vec, None, None, -1]], "+"
+    if kind == "l2":
+        return base, ["l2", V], "-"
+    if kind == "l1":
+        return base, ["l1", V], "+"
+    if kind == "qf":
+        return base, ["qf", V], "*"
+    if kind == "lc-expr":
+        return base, ["mvpsum", V, "sq"], "+"
+    if kind == "esum":
+        return base, ["esum", ["vmul", 2.0, V]], "+"
+    if kind == "vsum":
+        return base, ["vsum", V], "-"
+    if kind == "msum":
+        return base, ["msum", Mx], "+"
+    if kind == "frob":
+        return base, ["frob", ["T", Mx]], "+"
+    if kind == "mvp":
+        return base, ["mvpsum", V, "lin"], "/"
+    if kind == "right-leaf":
+        return base, L, "+"
+    if kind == "nested-sub":
+        return base, ["rsub", 1.0, ["rsub", 2.0, L]], "-"
+    return L, O, "+"                                 # deepest-leaf: the lone variable is the base of the chain
+
+
+def deeppos_spec(kind, n, k, place, names=("t7", "t10", "v2", "M3")):
+    lone, other, vec, mat = names
+    base, piece, op = position_piece(kind, lone, other, vec, mat)
+    if kind == "rdiv":
+        base = ["scalar", lone]
+    chain = ["chain", base, n, [[k, piece, op]]]
+    decls = [["scalar", lone, 0.0, 5.0], ["scalar", other, None, None], ["vec", vec, 3, None, 1.0], ["mat", mat, 2, 2, False, 0.0, None]]
+    if place == "objective":
+        return {"kind": "deeppos", "decls": decls, "objective": [chain], "constraints": [[["scalar", other], ">=", 0]], "tag": kind}
+    return {"kind": "deeppos", "decls": decls, "objective": [["scalar", other]], "constraints": [[chain, "<=", 1.0]], "tag": kind}
+
+
+def deeppos_cover(thorough):
+    out = []
+    depths = [400, 401, 450, 700, 399] if thorough else [400, 450, 399]
+    for ki, kind in enumerate(POSITION_KINDS):
+        for di, n in enumerate(depths):
+            for pi, k in enumerate((0, n // 2, n - 1)):
+                places = ("objective", "constraint") if thorough else (("objective", "constraint")[(ki + di + pi) % 2],)
+                for place in places:
+                    out.append(deeppos_spec(kind, n, k, place))
+    return out
+
+
+def gen_deeppos_spec(rng):
+    fam = name_family(rng)
+    names = (rng.sample(fam, 4) if len(fam) >= 4 else ["t7", "t10", "v2", "M3"])
+    n = rng.choice([399, 400, 401, 402, 450, 512, 700])
+    spec = deeppos_spec(rng.choice(POSITION_KINDS), n, rng.choice([0, 1, n // 3, n // 2, n - 2, n - 1]), rng.choice(["objective", "constraint"]),
+                        tuple(names))
+    if not names_unique(spec["decls"]):
+        return deeppos_spec(rng.choice(POSITION_KINDS), n, n // 2, "objective")
+    return spec
+
+
 # ---- label collisions: distinct views that carry the same name and length but hold different elements.
 # A slice view is named "{name}[{start or 0}:{stop or size}]" (step and direction are not part of the name), a
 # partial row "A[i,:]", a partial column "A[:,j]".  Identity, not the label, must decide "same source".
@@ -940,11 +1107,13 @@ def collision_cover():
 
 def gen_spec(rng, force=None):
     kind = force or rng.choice(["shortcut", "shortcut", "nearmiss", "general", "general", "general", "collision", "names", "names",
-                                "matview", "matview"])
+                                "matview", "matview", "deeppos"])
     if kind == "collision":
         return gen_collision_spec(rng)
     if kind == "matview":
         return gen_matview_spec(rng)
+    if kind == "deeppos":
+        return gen_deeppos_spec(rng)
     if kind == "names":
         return gen_names_spec(rng)
     n = rng.randint(1, 12)
@@ -1197,10 +1366,12 @@ def run(ctx) -> core.Report:
                            "problem) + matrix-view family (every 2-D slice form of symmetric and general matrices, of their transposes and "
                            "transposed afterwards, through sum / Frobenius norm / element-wise ops / trace / diag / rows / columns / matrix "
                            "constraints) + histories (edit after read; every read-only helper of Problem, enumerated from the class, and the Solution "
-                           "accessors interleaved between build / solve / edit, lists returned earlier re-checked) + seeded random problem specs; each built in several construction orders in-process and "
+                           "accessors interleaved between build / solve / edit, lists returned earlier re-checked) + depth x operand position (chains "
+                           "399 .. 700 deep with one variable only in an exponent / right operand / under a function / inside a vector or "
+                           "matrix node / as right child / deepest leaf; both variable walkers on every tree) + seeded random problem specs; each built in several construction orders in-process and "
                            "under several PYTHONHASHSEEDs; non-trivial = distinct specs with at least two variables")
     n_rand = 6000 if thorough else 700
-    specs = [dict(s) for s in FIXED_SPECS] + collision_cover() + names_cover() + matview_cover() + [gen_spec(rng) for _ in range(n_rand)]
+    specs = [dict(s) for s in FIXED_SPECS] + collision_cover() + names_cover() + matview_cover() + deeppos_cover(thorough) + [gen_spec(rng) for _ in range(n_rand)]
     orders = [0, 1, 2, 3] if not thorough else [0, 1, 2, 3, 4, 5]
     hashseeds = [0, 1, 2] if not thorough else [0, 1, 2, 3, 4, 5, 6, 7]
 
@@ -1211,7 +1382,7 @@ def run(ctx) -> core.Report:
     rep.mismatch_specs = []
     for si, spec in enumerate(specs):
         want0 = None
-        for o in orders:
+        for o in (orders[:2] if spec["kind"] == "deeppos" else orders):
             try:
                 b = Built(spec, o)
                 want, occ = expected_names(b)
@@ -1247,6 +1418,11 @@ def run(ctx) -> core.Report:
                                             "bounds": got["bounds"][:10]})
             if len(want) >= 2:
                 rep.nontrivial.add(json.dumps(spec, sort_keys=True))
+            # the variable collectors themselves, and Problem.variables with the explicit-stack walker forced on every tree
+            if o == 0:
+                for f in collector_checks(b, spec, rep):
+                    f.update({"spec": spec, "order": o})
+                    rep.oracle_failures.append(f)
             # further outcome channels / histories on a sample of the specs
             if o == 2 and si % 4 == 0 and b.objective is not None and want:
                 try:
@@ -1434,6 +1610,10 @@ def replay(payload) -> bool:
         return r.get("names") == want
     b = Built(spec, o)
     want, _ = expected_names(b)
+    if "threshold" in f or "get_variables" in f.get("what", ""):
+        fs = collector_checks(b, spec, core.Report())
+        print(fs)
+        return not fs
     if f.get("readonly"):
         wb_ = [[None if x is None else float(x) for x in b.decl_bounds.get(nm, ("?", "?"))] for nm in want]
         fs = []
